@@ -546,10 +546,13 @@ func pnftHistory(e *pnftEnv, rng *rand.Rand, p pnftPools, steps int) {
 		for _, a := range p.addrs[:2] {
 			e.qPNFTsBy(d, a)
 		}
+		// the other admissible spelling of the same account: the items must still carry the canonical owner text
+		e.qPNFTsBy(d, strings.ToUpper(p.addrs[0]))
 	}
 	for _, a := range p.addrs {
 		e.qDenomsByOwner(a)
 	}
+	e.qDenomsByOwner(strings.ToUpper(p.addrs[1]))
 	e.qDenoms(&query.PageRequest{Limit: 2, CountTotal: true})
 	e.dump()
 	e.monC12(p.denoms, p.addrs)
